@@ -171,6 +171,62 @@ def trace_validation(res, binary, rng, ntraces, known):
     return stats
 
 
+def bulk_request(res, binary, rng, quick):
+    """The model's writers issue one command each.  A request is also a SIZE: one bulk request of 100 000 rows (one write command per
+    row; the write channel holds 1 000 000) must be wholly in the WAL and wholly visible when it returns - with the inline flush and with
+    the background loop."""
+    n = 100000
+    base = 1600000000 + rng.randrange(0, 1000) * 7
+    last_v = (n - 1) * 3 + 1000001
+    cases = []
+    for mode in ("inline", "loop"):
+        root = os.path.join(vlib.scratch(), "c07_bulk_" + mode)
+        start = {"op": "start", "root": root}
+        if mode == "loop":
+            start.update({"loop_wal_ms": 5, "loop_prim_ms": 600000})
+        key = "BULK%s/1Sec/G" % mode
+        ops = [start, {"op": "create", "key": key + ":Symbol/Timeframe/AttributeGroup", "names": ["V"], "types": ["i8"]},
+               {"op": "write", "var": False, "buckets": [{"key": key, "cols": [{"name": "Epoch", "type": "i8", "vals": [base + k for k in range(n)]},
+                                                                               {"name": "V", "type": "i8", "vals": [k * 3 + 1000001 for k in range(n)]}]}]},
+               {"op": "query", "dest": key}, {"op": "walgrep", "x": {"value": last_v}}, {"op": "walgrep", "x": {"value": 1000001}}]
+        cases.append({"id": "bulk-" + mode, "ops": ops})
+    obs = vlib.run_cases(binary, cases, timeout=900, tag="c07bulk")
+    for c in cases:
+        o = obs.get(json.dumps(c["id"]))
+        mode = c["id"].split("-")[1]
+        replay = {"check": "writers.bulk", "mode": mode, "rows": n, "base_epoch": base}
+        what = "one write request of %d rows (%s flush)" % (n, "background loop" if mode == "loop" else "inline")
+        if o is None:
+            raise Undecided("no observation for %s" % c["id"])
+        if isinstance(o, dict) and "died" in o:
+            res.violation("%s: the server died: %s" % (what, (o.get("stderr") or "")[-400:]), replay)
+            continue
+        w, q, g_last, g_first = o[2], o[3], o[4], o[5]
+        if w.get("driver_error") or o[1].get("err"):
+            raise Undecided("bulk request could not be issued: %s %s" % (str(o[1])[:200], str(w)[:200]))
+        if w.get("panic"):
+            res.violation("%s panicked: %s" % (what, str(w["panic"])[:300]), replay)
+            continue
+        if w.get("err"):
+            continue         # not acknowledged: nothing is promised
+        vals = []
+        if not q.get("err"):
+            for k, cols in (q.get("result") or {}).items():
+                for col in cols:
+                    if col["name"] == "V":
+                        vals = col["vals"]
+        want = [k * 3 + 1000001 for k in range(n)]
+        if q.get("err") or vals != want:
+            first_bad = next((k for k in range(min(len(vals), n)) if vals[k] != want[k]), min(len(vals), n))
+            res.violation("%s returned success, but a query started after the return %s: %d of %d rows, first difference at row %d" % (
+                what, "failed (%s)" % str(q.get("err"))[:200] if q.get("err") else "does not see all of it", len(vals), n, first_bad), replay)
+        elif not g_last.get("found") or not g_first.get("found"):
+            res.violation("%s returned success and is visible, but its %s record is not in the WAL file" % (what, "last" if not g_last.get("found") else "first"), replay)
+        else:
+            res.cov["traces_validated_against_impl"] += 1
+    res.cov["bulk_request_rows"] = n
+
+
 def run(prop, tier):
     res = Result(prop, tier)
     rng = random.Random(vlib.seed() * 32452843 + 7)
@@ -306,6 +362,7 @@ def run(prop, tier):
             else:
                 res.violation(what + " (schedule forced with gates)", replay)
         res.sample({"schedule": [(s["actor"], s["until"]) for s in sched]}, limit=2)
+    bulk_request(res, binary, rng, quick)
     # ---- E3: free-running executions validated against Writers_Trace.tla (code -> spec) ----
     ntr = 3 if quick else 25
     tv = trace_validation(res, binary, rng, ntr, known)
